@@ -266,12 +266,22 @@ func runYield(c *Ctx, r *Reporter) {
 					if !ok {
 						continue
 					}
+					// a loop stepping a ranger runs as often as the program's range says, whether or not it
+					// evaluates anything: it is a loop of the program, not of the interpreter
+					if ci.Call.IsInvoke() && ci.Call.Method.Name() == "next" {
+						if n := namedOf(ci.Call.Value.Type()); n != nil && n.Obj().Name() == "ranger" {
+							runs = true
+						}
+					}
 					if sc := ci.Call.StaticCallee(); sc != nil {
 						if ei.reach[sc] {
 							runs = true
 						}
 						if ei.must[sc] {
 							mustBlocks = append(mustBlocks, blk)
+						}
+						if sc.Name() == "next" && sc.Signature.Recv() != nil && strings.HasSuffix(sc.Signature.Recv().Type().String(), "Range") {
+							runs = true
 						}
 					}
 				}
